@@ -53,26 +53,58 @@ def picks : List Task → List Task → List (Call × Task × List Task)
 
 def total (ts : List Task) : Nat := (ts.map (·.calls.length)).sum
 
-/-- Depth-first search; `fuel` ≥ number of pending calls.  `nslots σ` = number of watch slots
-opened so far in state `σ` (to fix the slot of a `watch` call when it is linearized). -/
+/-- Calls that, by the shape of their answer, change nothing that later answers depend on (a
+Check; a poll that delivered nothing; an operation on a slot without a stream).  If such a call
+can come next and is accepted now, some linearization starts with it whenever one exists at
+all (moving it to the front changes no state seen by the others), so the search commits to it
+instead of branching. -/
+def readOnly : Op → Resp → Bool
+  | .check _, _ => true
+  | .next _, .pending => true
+  | .next _, .ended => true
+  | .next _, .noWatcher => true
+  | .drop _, .noWatcher => true
+  | _, _ => false
+
+/-- Depth-first search; `fuel` ≥ number of pending calls, `budget` bounds the number of
+visited nodes (returned decremented; `(false, 0)` = gave up).  `nslots σ` = number of watch
+slots opened so far in state `σ` (to fix the slot of a `watch` call when it is linearized). -/
 def search {σ : Type} (acc : σ → Op → Resp → Option σ) (nslots : σ → Nat) :
-    Nat → σ → List Task → Bool
-  | 0, _, ts => total ts == 0
-  | fuel + 1, s, ts =>
-    if total ts == 0 then true
-    else (picks [] ts).any (fun (c, t, others) =>
-      minimal c others &&
-      (let op := localise t c.op
-       match acc s op c.ans with
-       | none => false
-       | some s' =>
-         let t' := match c.op with
-           | .watch _ => { t with slot := nslots s }
-           | _ => t
-         search acc nslots fuel s' (t' :: others)))
+    Nat → Nat → σ → List Task → Bool × Nat
+  | 0, b, _, ts => (total ts == 0, b)
+  | fuel + 1, b, s, ts =>
+    if b == 0 then (false, 0)
+    else if total ts == 0 then (true, b)
+    else
+      let cands := (picks [] ts).filter (fun (c, _, others) => minimal c others)
+      let ro := cands.findSome? (fun (c, t, others) =>
+        if readOnly c.op c.ans then
+          (acc s (localise t c.op) c.ans).map (fun s' => (s', t :: others))
+        else none)
+      match ro with
+      | some (s', ts') => search acc nslots fuel (b - 1) s' ts'
+      | none =>
+        cands.foldl (fun (r : Bool × Nat) (cand : Call × Task × List Task) =>
+          let (c, t, others) := cand
+          if r.1 then r
+          else if r.2 == 0 then r
+          else match acc s (localise t c.op) c.ans with
+            | none => r
+            | some s' =>
+              let t' := match c.op with
+                | .watch _ => { t with slot := nslots s }
+                | _ => t
+              search acc nslots fuel r.2 s' (t' :: others)) (false, b - 1)
+
+inductive Outcome
+  | yes | no | gaveUp
+deriving DecidableEq, Repr
 
 def linearizable {σ : Type} (acc : σ → Op → Resp → Option σ) (nslots : σ → Nat) (s : σ)
-    (ts : List Task) : Bool :=
-  search acc nslots (total ts) s ts
+    (ts : List Task) : Outcome :=
+  match search acc nslots (total ts) 300000 s ts with
+  | (true, _) => .yes
+  | (false, 0) => .gaveUp
+  | (false, _) => .no
 
 end Health.Lin
